@@ -212,6 +212,8 @@ def h_ok_or(I, st, fr, e, c, a):
     v = deref(I, st, a[0])
     if isinstance(v, VEnum):
         if v.variant == "None":
+            if isinstance(a[1], VClosure):
+                return [(s2, err(r), ctl) for (s2, r, ctl) in I.apply_value(a[1], [], st, fr, e)]
             return [(st, err(a[1]), None)]
         return [(st, ok(v.payload[0]), None)]
     return [(st, VTop("ok_or"), None)]
@@ -421,3 +423,214 @@ def user_contract(I, callee, vals):
 def user_closure(I, f, args):
     import contracts
     return contracts.closure(I, f, args)
+
+
+# ------------------------------------------------------------------------------- more Option/Result/integer combinators
+
+def _opt_cases(I, st, v):
+    """[(state, tag, payload)] for an option/result value (unknown values fork)."""
+    v = deref(I, st, v)
+    if isinstance(v, VEnum):
+        return [(st, v.variant, v.payload[0] if v.payload else None, v)]
+    if isinstance(v, (VTop, VUser)):
+        s2 = st.copy()
+        key = getattr(v, "why", None) or getattr(v, "key", "?")
+        return [(st, "Some", VTop("payload of " + str(key)), None), (s2, "None", None, None)]
+    raise NotImplementedError("option value " + repr(v)[:60])
+
+
+def _as_bool(I, r, e, tag):
+    return r.f if isinstance(r, VBool) else ("unk", (tag, e["sp"]))
+
+
+def h_is_some_and(I, st, fr, e, c, a):
+    out = []
+    for (s, tag, pl, _) in _opt_cases(I, st, a[0]):
+        if tag in ("Some", "Ok"):
+            for (s2, r, ctl) in I.apply_value(a[1], [pl], s, fr, e):
+                out.append((s2, VBool(_as_bool(I, r, e, "is_some_and")), ctl))
+        else:
+            out.append((s, FALSE, None))
+    return out
+
+
+def h_is_none_or(I, st, fr, e, c, a):
+    out = []
+    for (s, tag, pl, _) in _opt_cases(I, st, a[0]):
+        if tag in ("Some", "Ok"):
+            for (s2, r, ctl) in I.apply_value(a[1], [pl], s, fr, e):
+                out.append((s2, VBool(_as_bool(I, r, e, "is_none_or")), ctl))
+        else:
+            out.append((s, TRUE, None))
+    return out
+
+
+def h_is_some(I, st, fr, e, c, a):
+    return [(s, TRUE if tag in ("Some", "Ok") else FALSE, None) for (s, tag, pl, _) in _opt_cases(I, st, a[0])]
+
+
+def h_is_none(I, st, fr, e, c, a):
+    return [(s, FALSE if tag in ("Some", "Ok") else TRUE, None) for (s, tag, pl, _) in _opt_cases(I, st, a[0])]
+
+
+def h_unwrap_or_else(I, st, fr, e, c, a):
+    out = []
+    for (s, tag, pl, _) in _opt_cases(I, st, a[0]):
+        if tag in ("Some", "Ok"):
+            out.append((s, pl, None))
+        else:
+            args = [] if tag == "None" else [pl]
+            out.extend(I.apply_value(a[1], args, s, fr, e))
+    return out
+
+
+def h_map_or_else(I, st, fr, e, c, a):
+    out = []
+    for (s, tag, pl, _) in _opt_cases(I, st, a[0]):
+        if tag in ("Some", "Ok"):
+            out.extend(I.apply_value(a[2], [pl], s, fr, e))
+        else:
+            out.extend(I.apply_value(a[1], [] if tag == "None" else [pl], s, fr, e))
+    return out
+
+
+def h_and_then(I, st, fr, e, c, a):
+    out = []
+    for (s, tag, pl, orig) in _opt_cases(I, st, a[0]):
+        if tag in ("Some", "Ok"):
+            out.extend(I.apply_value(a[1], [pl], s, fr, e))
+        else:
+            out.append((s, orig if orig is not None else NONE, None))
+    return out
+
+
+def h_or_else(I, st, fr, e, c, a):
+    out = []
+    for (s, tag, pl, orig) in _opt_cases(I, st, a[0]):
+        if tag in ("Some", "Ok"):
+            out.append((s, orig if orig is not None else some(pl), None))
+        else:
+            out.extend(I.apply_value(a[1], [] if tag == "None" else [pl], s, fr, e))
+    return out
+
+
+def h_opt_filter(I, st, fr, e, c, a):
+    out = []
+    for (s, tag, pl, orig) in _opt_cases(I, st, a[0]):
+        if tag == "Some":
+            for (s2, r, ctl) in I.apply_value(a[1], [pl], s, fr, e):
+                y, n = I.branch(s2, _as_bool(I, r, e, "filter"))
+                out += [(s3, some(pl), None) for s3 in y] + [(s3, NONE, None) for s3 in n]
+        else:
+            out.append((s, NONE, None))
+    return out
+
+
+def h_ok(I, st, fr, e, c, a):
+    return [(s, some(pl) if tag == "Ok" else NONE, None) for (s, tag, pl, _) in _opt_cases(I, st, a[0])]
+
+
+def h_map_err(I, st, fr, e, c, a):
+    out = []
+    for (s, tag, pl, orig) in _opt_cases(I, st, a[0]):
+        if tag == "Err":
+            for (s2, r, ctl) in I.apply_value(a[1], [pl], s, fr, e):
+                out.append((s2, err(r), ctl))
+        else:
+            out.append((s, orig if orig is not None else ok(pl), None))
+    return out
+
+
+def h_unwrap_or_default(I, st, fr, e, c, a):
+    out = []
+    for (s, tag, pl, _) in _opt_cases(I, st, a[0]):
+        if tag in ("Some", "Ok"):
+            out.append((s, pl, None))
+        else:
+            tyd = I.facts.ty(e["ty"])
+            out.append((s, VNat(0) if tyd["k"] in ("uint", "int") or tyd["s"].endswith("::I") else VTop("default"), None))
+    return out
+
+
+def h_saturating_sub(I, st, fr, e, c, a):
+    x, y = deref(I, st, a[0]), deref(I, st, a[1])
+    if isinstance(x, VNat) and isinstance(y, VNat):
+        out = []
+        for s in I.assume(st.copy(), ("cmp", "ge", x.p - y.p)):
+            out.append((s, VNat(x.p - y.p), None))
+        for s in I.assume(st.copy(), ("cmp", "ge", y.p - x.p - 1)):
+            out.append((s, VNat(0), None))
+        return out
+    return [(st, VTop("saturating_sub"), None)]
+
+
+def h_checked_sub(I, st, fr, e, c, a):
+    x, y = deref(I, st, a[0]), deref(I, st, a[1])
+    if isinstance(x, VNat) and isinstance(y, VNat):
+        out = []
+        for s in I.assume(st.copy(), ("cmp", "ge", x.p - y.p)):
+            out.append((s, some(VNat(x.p - y.p)), None))
+        for s in I.assume(st.copy(), ("cmp", "ge", y.p - x.p - 1)):
+            out.append((s, NONE, None))
+        return out
+    return [(st, VTop("checked_sub"), None)]
+
+
+def h_min(I, st, fr, e, c, a):
+    x, y = deref(I, st, a[0]), deref(I, st, a[1])
+    if isinstance(x, VNat) and isinstance(y, VNat):
+        out = []
+        for s in I.assume(st.copy(), ("cmp", "ge", y.p - x.p)):
+            out.append((s, VNat(x.p), None))
+        for s in I.assume(st.copy(), ("cmp", "ge", x.p - y.p - 1)):
+            out.append((s, VNat(y.p), None))
+        return out
+    return [(st, VTop("min"), None)]
+
+
+def h_max2(I, st, fr, e, c, a):
+    x, y = deref(I, st, a[0]), deref(I, st, a[1])
+    if isinstance(x, VNat) and isinstance(y, VNat):
+        out = []
+        for s in I.assume(st.copy(), ("cmp", "ge", x.p - y.p)):
+            out.append((s, VNat(x.p), None))
+        for s in I.assume(st.copy(), ("cmp", "ge", y.p - x.p - 1)):
+            out.append((s, VNat(y.p), None))
+        return out
+    return [(st, VTop("max"), None)]
+
+
+SIMPLE.update({
+    "std::option::Option::<T>::is_some_and": h_is_some_and,
+    "std::result::Result::<T, E>::is_ok_and": h_is_some_and,
+    "std::option::Option::<T>::is_none_or": h_is_none_or,
+    "std::option::Option::<T>::is_some": h_is_some,
+    "std::option::Option::<T>::is_none": h_is_none,
+    "std::result::Result::<T, E>::is_ok": h_is_some,
+    "std::result::Result::<T, E>::is_err": h_is_none,
+    "std::option::Option::<T>::unwrap_or_else": h_unwrap_or_else,
+    "std::result::Result::<T, E>::unwrap_or_else": h_unwrap_or_else,
+    "std::option::Option::<T>::map_or_else": h_map_or_else,
+    "std::result::Result::<T, E>::map_or_else": h_map_or_else,
+    "std::result::Result::<T, E>::map_or": h_map_or,
+    "std::option::Option::<T>::and_then": h_and_then,
+    "std::result::Result::<T, E>::and_then": h_and_then,
+    "std::option::Option::<T>::or_else": h_or_else,
+    "std::option::Option::<T>::filter": h_opt_filter,
+    "std::result::Result::<T, E>::ok": h_ok,
+    "std::result::Result::<T, E>::map_err": h_map_err,
+    "std::option::Option::<T>::ok_or_else": h_ok_or,
+    "std::option::Option::<T>::unwrap_or_default": h_unwrap_or_default,
+    "std::result::Result::<T, E>::unwrap_or": h_unwrap_or,
+    "std::option::Option::<&T>::cloned": h_identity,
+    "std::option::Option::<&T>::copied": h_identity,
+    "std::option::Option::<T>::as_ref": h_identity,
+    "core::num::<impl usize>::saturating_sub": h_saturating_sub,
+    "core::num::<impl usize>::checked_sub": h_checked_sub,
+    "core::num::<impl usize>::min": h_min,
+    "core::num::<impl usize>::max": h_max2,
+    "std::cmp::Ord::min": h_min,
+    "std::cmp::Ord::max": h_max2,
+    "std::cmp::min": h_min,
+    "std::cmp::max": h_max2,
+})
